@@ -46,6 +46,23 @@ func twinROM(letter byte) []byte {
 	return img
 }
 
+// an MBC3 cartridge WITHOUT the timer feature whose guest nevertheless selects clock register 08, reads it (before ever
+// writing it), sends what it read to the serial port and stores it in work RAM, writes it back incremented and latches
+func init() {
+	c26Synthetic["synthetic:mbc3-no-timer-clock-registers"] = machine.ProgramCart(0x13, 0x03, map[uint16][]byte{0x100: {0xc3, 0x50, 0x01}, 0x150: {
+		0x3e, 0x0a, 0xea, 0x00, 0x00, // RAM enable
+		0x21, 0x00, 0xc0, // LD HL,C000
+		0x3e, 0x08, 0xea, 0x00, 0x40, // select 08
+		0xfa, 0x00, 0xa0, // LD A,(A000)
+		0xe0, 0x01, 0x22, // LDH (01),A; LD (HL+),A
+		0xc6, 0x07, 0xea, 0x00, 0xa0, // ADD A,07; LD (A000),A
+		0xaf, 0xea, 0x00, 0x60, 0x3c, 0xea, 0x00, 0x60, // latch 00, 01
+		0xfa, 0x00, 0xa0, 0x22, // LD A,(A000); LD (HL+),A
+		0x7d, 0xe6, 0x3f, 0x6f, // L &= 3F
+		0x18, 0xde, // JR back to "select 08"
+	}})
+}
+
 func init() {
 	c26Synthetic["synthetic:twin-a"] = twinROM('A')
 	c26Synthetic["synthetic:twin-b"] = twinROM('B')
@@ -196,7 +213,7 @@ func c24ROMs(repo string) []string {
 func init() {
 	register("C24", "exploration", func(c *Ctx) {
 		if c.R != nil {
-			c.R.Rule = "every non-empty ROM under testdata x fixed button schedules: the ROM is run through the real gameboy.New / runFrame with display, speakers and serial writer attached, twice in this process (with another ROM run in between) and once in a separate process; after every frame a hash of (registers, every writable memory region, ROM-window probes, frame pixels, drained samples, serial bytes, RTC and APU generator state) and at the end a hash of the full 64 KiB space and the cartridge RAM dump must agree between all three runs; plus two cartridges with byte-identical headers and different programs, each run after and between runs of the other in this process and alone in the separate process; plus six synthetic guest programs (one of them switches the noise generator between its long and short register at 96 phases after a trigger), and three runs in which the host stalls the second run for 2.3 s of wall-clock time between two frames (emulated time is counted in machine cycles, so nothing may change); a case = one (ROM, schedule); non-trivial = distinct final state hashes"
+			c.R.Rule = "every non-empty ROM under testdata x fixed button schedules: the ROM is run through the real gameboy.New / runFrame with display, speakers and serial writer attached, twice in this process (with another ROM run in between) and once in a separate process; after every frame a hash of (registers, every writable memory region, ROM-window probes, frame pixels, drained samples, serial bytes, RTC and APU generator state) and at the end a hash of the full 64 KiB space and the cartridge RAM dump must agree between all three runs; plus two cartridges with byte-identical headers and different programs, each run after and between runs of the other in this process and alone in the separate process; plus seven synthetic guest programs (one of them switches the noise generator between its long and short register at 96 phases after a trigger), and three runs in which the host stalls the second run for 2.3 s of wall-clock time between two frames (emulated time is counted in machine cycles, so nothing may change); a case = one (ROM, schedule); non-trivial = distinct final state hashes"
 			c.R.Assumptions = []string{"differential replay: there is no nondeterministic choice inside the emulator to enumerate; the check demonstrates that rather than assuming it", "ROMs that the constructor rejects or that run into an undefined opcode are skipped"}
 		}
 		frames, scheds := 60, []int{0, 2}
@@ -214,7 +231,7 @@ func init() {
 					}
 				}
 				// synthetic guest programs (cartridge clock reader; STOP; HALT forever; LCD and sound off; clock halted + DMA)
-				for _, r := range []string{"synthetic:mbc3-clock", "synthetic:stop", "synthetic:halt-forever", "synthetic:lcd-and-sound-off", "synthetic:rtc-halted-dma", "synthetic:noise-width-phases"} {
+				for _, r := range []string{"synthetic:mbc3-clock", "synthetic:stop", "synthetic:halt-forever", "synthetic:lcd-and-sound-off", "synthetic:rtc-halted-dma", "synthetic:noise-width-phases", "synthetic:mbc3-no-timer-clock-registers"} {
 					if !yield(c24Case{ROM: r, Sched: 0, Frames: frames}) {
 						return
 					}
